@@ -186,7 +186,7 @@ def drive(PositionGrid, alg, N, text, rng):
         calls = [pg.get_all_position_volumes, pg.get_borders_of_position_grid, pg.get_distances_of_position_grid, pg.get_adjacency_of_position_grid]
         rng.shuffle(calls)
         from vlib.rec import call_and_hold
-        call_and_hold(calls, "C06.returned_object_stable")
+        call_and_hold(calls, "C06.returned_object_stable", hostile_caller=True)
         e = expected(pg)
         if e["surrounds"] and pg.t_grid.get_N_trans() >= 2:
             REC.nontrivial_case((alg, N, text))
